@@ -77,6 +77,11 @@ def build_dataset(rng, fam, tmp, tag, *, variant=0):
     ds['packed_face'] = xarray.DataArray((numpy.arange(int(numpy.prod(fshape)), dtype='f8') * 0.375 + 9.625).reshape(fshape), dims=fdims,
                                          attrs={'long_name': 'packed on disk'})
     added = added + [('packed_face', 'face', fdims)]
+    # a cell measure (CF: named by another variable's cell_measures attribute): an ordinary field on the cells, blanked like any
+    ds['cell_area'] = xarray.DataArray((numpy.arange(int(numpy.prod(fshape)), dtype='f8') + 0.5).reshape(fshape), dims=fdims,
+                                       attrs={'standard_name': 'cell_area', 'units': 'm2'})
+    ds['packed_face'].attrs['cell_measures'] = 'area: cell_area'
+    added = added + [('cell_area', 'face', fdims)]
     ds.attrs['history'] = 'generated for clipping'
     ds.attrs['note'] = tag
     return d, added
